@@ -40,6 +40,7 @@ Next ==
        [] e.e = "LapOut" -> Step(ChkLapOut(ds[e.d], e), {}, e, Upd(e.d, NxtUnmodelled(ds[e.d], e)))
        [] e.e = "InfoClear" ->
             Step((IF e.vch # 0 \/ e.vrate # 0 \/ e.vcs # 0 THEN {"InfoClearEmptiesInfo"} ELSE {}), {}, e, Upd(e.d, InitDec))
+       [] e.e = "Twin" -> Step((IF ds[e.d].nh = 3 /\ ds[e.d2].nh = 3 /\ e.eq # 1 THEN {"SameSpectrumSamePcm"} ELSE {}), {}, e, ds)
        [] e.e = "End" -> Step((IF e.objleft = 0 /\ e.live # 0 THEN {"ClearReleasesEverything"} ELSE {}), {}, e, ds)
        [] e.e \in {"Crash", "Hang", "Exit"} ->
             Step({IF e.e = "Crash" THEN "NoCrash" ELSE IF e.e = "Hang" THEN "CallsTerminate" ELSE "LibraryNeverExits"}, {}, e, ds)
